@@ -417,9 +417,11 @@ void CheckBufferOverrun::arrayIndexError(const Token* tok,
 
     const Token *condition = nullptr;
     const ValueFlow::Value *index = nullptr;
+    bool errorSeverity = true; // every index value must be definite, not only the one the error path is taken from
     for (const ValueFlow::Value& indexValue : indexes) {
         if (!indexValue.errorSeverity() && !mSettings->severity.isEnabled(Severity::warning))
             return;
+        errorSeverity = errorSeverity && indexValue.errorSeverity();
         if (indexValue.condition)
             condition = indexValue.condition;
         if (!index || !indexValue.errorPath.empty())
@@ -427,8 +429,8 @@ void CheckBufferOverrun::arrayIndexError(const Token* tok,
     }
 
     reportError(getErrorPath(tok, index, "Array index out of bounds"),
-                index->errorSeverity() ? Severity::error : Severity::warning,
-                index->condition ? "arrayIndexOutOfBoundsCond" : "arrayIndexOutOfBounds",
+                errorSeverity ? Severity::error : Severity::warning,
+                condition ? "arrayIndexOutOfBoundsCond" : "arrayIndexOutOfBounds",
                 arrayIndexMessage(tok, dimensions, indexes, condition),
                 CWE_BUFFER_OVERRUN,
                 index->isInconclusive() ? Certainty::inconclusive : Certainty::normal);
@@ -445,9 +447,11 @@ void CheckBufferOverrun::negativeIndexError(const Token* tok,
 
     const Token *condition = nullptr;
     const ValueFlow::Value *negativeValue = nullptr;
+    bool errorSeverity = true; // every index value must be definite, not only the one the error path is taken from
     for (const ValueFlow::Value& indexValue : indexes) {
         if (!indexValue.errorSeverity() && !mSettings->severity.isEnabled(Severity::warning))
             return;
+        errorSeverity = errorSeverity && indexValue.errorSeverity();
         if (indexValue.condition)
             condition = indexValue.condition;
         if (!negativeValue || !indexValue.errorPath.empty())
@@ -455,7 +459,7 @@ void CheckBufferOverrun::negativeIndexError(const Token* tok,
     }
 
     reportError(getErrorPath(tok, negativeValue, "Negative array index"),
-                negativeValue->errorSeverity() ? Severity::error : Severity::warning,
+                errorSeverity ? Severity::error : Severity::warning,
                 "negativeIndex",
                 arrayIndexMessage(tok, dimensions, indexes, condition),
                 CWE_BUFFER_UNDERRUN,
